@@ -25,7 +25,7 @@ var c12positions = []struct{ id, def string }{
 	{"parameters", ""}, {"parameters.p", "1"}, {"services", ""}, {"services.s", ""}, {"getter", `"GetS"`}, {"must_getter", "true"}, {"type", `"*pk.T"`}, {"value", "null"},
 	{"constructor", `"pk.New"`}, {"arguments", ""}, {"arguments.0", `"%p%"`}, {"calls", ""}, {"calls.0", ""}, {"calls.0.0", `"Set"`}, {"calls.0.1", `["x"]`}, {"calls.0.2", "false"},
 	{"fields", ""}, {"fields.F", "2"}, {"tags", ""}, {"tags.0", ""}, {"tags.0.name", `"tg"`}, {"tags.0.priority", "5"}, {"scope", `"shared"`}, {"todo", "false"},
-	{"decorators", ""}, {"decorators.0", ""}, {"decorators.0.tag", `"tg"`}, {"decorators.0.decorator", `"pk.Dec"`}, {"decorators.0.arguments", ""}, {"decorators.0.arguments.0", `"@s"`},
+	{"decorators", ""}, {"decorators.0", ""}, {"decorators.0.tag", `"tg"`}, {"decorators.0.decorator", `"pk.Dec"`}, {"decorators.0.arguments", ""}, {"decorators.0.arguments.0", `"%p%"`},
 }
 
 var c12shapes = []string{"null", "~", "true", "1", "-1", "1.5", ".nan", ".inf", `""`, `"x"`, "[]", "[x]", "[[x]]", "{}", "{a: b}", "{1: 2}", "{[a]: b}", "&anc x", "*anc", "!!binary aGVsbG8=", "!!str 5", "!custom x", "2001-12-14t21:59:43.10-05:00", "{<<: {a: 1}}", "0x1F", "0o17", "1e400", "18446744073709551616", "? a", "- x"}
